@@ -1,12 +1,13 @@
 #!/bin/sh
-# Pre-builds the harness binaries (every check rebuilds its own against /repo's working tree anyway).
+# Prepares the Go side: module checksums and the two source-level tools. Every check builds its own harness
+# against /repo's working tree (most need -tags verif and a generated overlay), so nothing else is built here.
 set -e
-cd "$(dirname "$0")/../harness"
+HERE="$(cd "$(dirname "$0")" && pwd)"
 export GOFLAGS=-mod=mod GOPROXY=off GOSUMDB=off GOTOOLCHAIN=local
+cd "$HERE/../harness"
 cp -f /repo/go.sum . 2>/dev/null || true
 mkdir -p ../bin
-for d in */; do
-  d=${d%/}
-  if [ -f "$d/main.go" ]; then go1.26.8 build -o ../bin/h_$d ./$d; fi
-done
+(cd "$HERE/vrewrite" && go1.26.8 build -o ../../bin/vrewrite .)
+(cd "$HERE/raceaudit" && go1.26.8 build -o ../../bin/raceaudit .)
+go1.26.8 vet ./common/ ./vsched/ >/dev/null
 echo "harness ok"
